@@ -964,12 +964,12 @@ def main():
     if args.replay:
         return run_replay(args, replay)
     run = Run(PID, "model_checking", args)
-    run.max_samples = 12
+    run.max_samples = 5  # style cases first; raised below so that stroke histories are sampled as well
 
     only = os.environ.get("C15_ONLY", "")  # development aid: "styles" | "borders" (floors then fail by design)
     # ---- part 1: styles (complete products) and fixtures
     cases = [] if only == "borders" else gen_style_cases(args.tier, args.seed) + gen_fixture_cases(args.tier, args.seed)
-    specs = {repr(sorted(s.items())) for c in cases if c["kind"] == "style" for s in c["styles"]}
+    specs = {repr(sorted(s.items())) for c in cases if c["kind"] == "style" for s in c["styles"] if s}
     per = 2 if args.tier == "quick" else 4
     fx = [[c] for c in cases if c["kind"] == "fixture"]
     sc = [c for c in cases if c["kind"] == "style"]
@@ -980,6 +980,7 @@ def main():
     run.extra["style_families"] = {k[len("style_cases_"):]: v for k, v in run.counters.items() if k.startswith("style_cases_")}
 
     # ---- part 2: borders (state-space search)
+    run.max_samples = 14
     plan_only = {int(x) for x in os.environ.get("C15_PLAN", "").split(",") if x.strip()}  # development aid: a subset of the border plan
     for i, (sname, inits, depth, probe) in enumerate([] if only == "styles" else border_plan(args.tier, args.seed)):
         if plan_only and i not in plan_only:
@@ -1016,6 +1017,9 @@ def main():
         "transitions": run.counters["transitions"],
         "traces_validated_against_impl": run.counters["transitions"],
         "evaluations": run.counters["style_evaluations"] + run.counters["unstyled_evaluations"],
+        "distinct_nontrivial": len(specs),
+        "rule": "styles: distinct attribute dictionaries with at least one non-default attribute that were applied to at least one cell of a real document "
+                "(each is read back in four views); borders are counted as states/transitions, not here",
         "explanation": "borders: every transition executes the real Table.set_cell_border on a real document and is compared with the unit-edge model on the open document; "
                        "every distinct state of the probing plans is saved, reopened and compared again. styles: complete products, each case built twice (with / without reading "
                        "every cell before save); evaluations = (cell, view) pairs whose 16 attributes were compared",
